@@ -257,6 +257,8 @@ def case_nls(H, mname, f, g, n, mdim, history, tref):
         def observation(self, state, input, t=None):
             return g(state, input, t)
 
+    again = []
+
     def run_history(sys_):
         t = 0
         for h in history:
@@ -287,6 +289,8 @@ def case_nls(H, mname, f, g, n, mdim, history, tref):
         sys_.set_refpoint(state=x, input=u, t=targ)
         A, B, C, D = sys_.A, sys_.B, sys_.C, sys_.D
         c1, c2 = sys_.c1, sys_.c2
+        again.clear()
+        again.extend([m.full_terms(sys_.c1), m.full_terms(sys_.c2), m.full_terms(sys_.A), m.full_terms(sys_.c1)])     # properties are pure: reading twice
         # oracle forward terms at (x*, u*, t*): the same user functions evaluated by the engine on fresh symbolic copies
         x2, u2 = x.clone().detach(), u.clone().detach()
         m.set_terms(x2, xs)
@@ -308,6 +312,11 @@ def case_nls(H, mname, f, g, n, mdim, history, tref):
         Br = torch.autograd.functional.jacobian(lambda z: f(x, z, tt), u)
         Cr = torch.autograd.functional.jacobian(lambda z: g(z, u, tt), x)
         Dr = torch.autograd.functional.jacobian(lambda z: g(x, z, tt), u)
+        c1a, c2a = sys_.c1.clone(), sys_.c2.clone()
+        c1b, c2b = sys_.c1.clone(), sys_.c2.clone()
+        if (c1a - c1b).abs().max().item() > 1e-12 or (c2a - c2b).abs().max().item() > 1e-12:
+            return True, 'reading c1 / c2 a second time after one set_refpoint gives different values (|dc1| = %.3g, |dc2| = %.3g)' % (
+                (c1a - c1b).abs().max().item(), (c2a - c2b).abs().max().item())
         e = max((sys_.A - Ar).abs().max().item(), (sys_.B - Br).abs().max().item(), (sys_.C - Cr).abs().max().item(),
                 (sys_.D - Dr).abs().max().item(),
                 (sys_.A @ x + sys_.B @ u + sys_.c1 - f(x, u, tt)).abs().max().item(),
@@ -332,14 +341,61 @@ def case_nls(H, mname, f, g, n, mdim, history, tref):
         C, D = T.mat(Ct, no, n), T.mat(Dt, no, mdim)
         aff_f = [a + b + c for a, b, c in zip(T.mv(A, xs), T.mv(B, us), c1t)]
         aff_g = [a + b + c for a, b, c in zip(T.mv(C, xs), T.mv(D, us), c2t)]
+        for lab, first, second in (('c1', c1t, again[0]), ('c2', c2t, again[1]), ('A', At, again[2]), ('c1 (third read)', c1t, again[3])):
+            for i, (l, r) in enumerate(zip(first, second)):
+                H.same('%s/%s-read-twice[%d]' % (name, lab, i), hyp, l, r, ctx, replay=replay, key='C15/NLS/affine')
         H.prove(name + '/affine-model-exact-at-refpoint', hyp, z3.And([a == b for a, b in zip(aff_f + aff_g, fv + gv)]), replay=replay,
                 key='C15/NLS/affine')
+
+
+def case_custom_forward(H):
+    """a system whose subclass redefines forward() without calling the base method (the documented way to inject noise) and is
+    invoked as system(x, u): every call must still advance the system time by exactly one, so a time-dependent transition sees t = 0, 1, 2"""
+    name = 'C15/custom-forward/time-advances'
+
+    class Noisy(pp.module.NLS):
+        def state_transition(self, state, input, t=None):
+            return state + t * input
+
+        def observation(self, state, input, t=None):
+            return state * 1.0
+
+        def forward(self, state, input):
+            return self.state_transition(state, input, self.systime) + 0.0, self.observation(state, input, self.systime)
+
+    def run_real(x, u):
+        sys_ = Noisy()
+        outs = []
+        for k in range(3):
+            outs.append(sys_(x, u)[0])
+        return outs, int(sys_.systime)
+
+    def prog(m):
+        x, u = torch.tensor([0.4, -0.7], dtype=DT), torch.tensor([0.2, 0.5], dtype=DT)
+        xs, us = m.symbolic(x, 'x'), m.symbolic(u, 'u')
+        outs, tnow = run_real(x, u)
+        return [m.full_terms(o) for o in outs], tnow, xs, us
+
+    def replay(model):
+        x = tensor_from_env(['x0', 'x1'], model) if model else torch.tensor([0.4, -0.7], dtype=DT)
+        u = tensor_from_env(['u0', 'u1'], model) if model else torch.tensor([0.2, 0.5], dtype=DT)
+        if float(u.abs().sum()) == 0:
+            u = torch.tensor([0.2, 0.5], dtype=DT)
+        outs, tnow = run_real(x, u)
+        e = max((outs[k] - (x + k * u)).abs().max().item() for k in range(3))
+        return e > 1e-12 or tnow != 3, 'custom forward(): call k saw time %s (systime after 3 calls: %d), outputs deviate by %.3g' % ('!= k' if e > 1e-12 else 'k', tnow, e)
+
+    for ctx, (outs, tnow, xs, us) in run_paths(H, name, prog):
+        H.prove(name + '/systime==3', [], z3.BoolVal(tnow == 3), replay=replay, key='C15/clock')
+        for k in range(3):
+            for i in range(2):
+                H.same('%s/call%d/output[%d]' % (name, k, i), H.hyps_of(ctx), outs[k][i], xs[i] + k * us[i], ctx, replay=replay, key='C15/clock')
 
 
 def run(H):
     H.assumptions += ['exact real arithmetic', 'time indices of LTV matrices enumerated (concrete), values symbolic']
     H.bounds += ['LTI: n<=2, m<=2, p<=2, batch in {none, 2}, all 4 presence patterns of c1/c2',
-                 'LTV: period T<=3, start time 0..T (two consecutive calls)', 'NLS: 4 model programs x call histories of length <=3 x reference times']
+                 'LTV: period T<=3, start time 0..T (two consecutive calls)', 'NLS: 4 model programs x call histories of length <=3 x reference times; c1/c2/A read repeatedly after one set_refpoint', 'a subclass overriding forward() invoked through __call__ (3 calls)']
     for (n, mdim, p) in ([(2, 1, 2)] if H.quick else [(2, 1, 2), (1, 1, 1), (2, 2, 1)]):
         for batch, mb in ((0, False), (2, False), (2, True)):
             for c1, c2 in itertools.product((False, True), repeat=2):
@@ -359,6 +415,11 @@ def run(H):
     except Exception as e:
         import traceback; traceback.print_exc()
         H.engine_error('time', e)
+    try:
+        case_custom_forward(H)
+    except Exception as e:
+        import traceback; traceback.print_exc()
+        H.engine_error('custom-forward', e)
     hists = [[], [('call',)], [('call',), ('call',)], [('reset', 3)], [('call',), ('reset', 2), ('call',)]]
     trefs = [None, 'tensor0', 2]
     if not H.quick:
